@@ -348,7 +348,7 @@ func c19Enumerated(c *Case) {
 
 func c19Cases(tier string) int {
 	if tier == "thorough" {
-		return 1 + 500000
+		return 1 + 3000000
 	}
 	return 1 + 60000
 }
